@@ -12,6 +12,7 @@
 //!        I<q>k<k> pipe_in stream k into object q   J<q>k<k>d<d> pipe stream k through q (depth d, 0 = default); output kept by the caller
 //!        c<k>-<k2> declares that the closure of the pipe reading stream k owns a closer of stream k2 (released closure => stream k2 ends)
 //!        p<q> the caller panics while it owns this program's handle of object q (the object is dropped during the unwinding; real threads only)
+//!        q<q>[body] sync through the program's last handle of object q, owned by the caller during the call (real threads, with a panicking job queued before)
 //!        k<q> a job scheduled on object q drops the caller's output stream
 //!        j<k>n<n> produce n GATED items (their processing waits until the consumer has received every earlier item)
 //!        g<k>n<n> produce n SLOW items (their processing yields co-operatively once, holding the object across the yield)   G<k>n<n> produce n items on stream k   H<k> end stream k   N<n> consume n outputs (0 = until the end)   K drop the output stream
@@ -55,6 +56,9 @@ pub enum Op {
     Pipe(usize, usize, usize),
     Produce(usize, usize),
     ProduceSlow(usize, usize),
+    /// `q<q>[body]`: sync through the program's LAST handle of object q, owned by the caller during the call: if the call unwinds
+    /// (a job queued earlier panics while this caller drains the queue) the object is dropped by the unwinding thread
+    SyncOwned(usize, Vec<Prim>),
     /// `p<q>`: the caller takes this program's handle of object q and panics while it owns it: the object is dropped by the unwinding thread
     PanicDrop(usize),
     /// `c<k>-<k2>`: declaration (no run-time effect of its own): the closure of the pipe that reads stream k owns a closer of stream k2 -
@@ -82,7 +86,7 @@ impl Program { pub fn nstreams(&self) -> usize { self.callers.iter().flatten().m
 impl Op {
     pub fn obj(&self) -> Option<usize> {
         match self {
-            Op::Desync(q, _) | Op::Sync(q, _) | Op::TrySync(q, _) | Op::FutDesync(q, _, _) | Op::FutSync(q, _, _) | Op::After(q, _, _) | Op::Suspend(q) | Op::SuspendLazy(q) | Op::SuspendHand(q) | Op::DropObj(q) | Op::ExpectPanic(q) | Op::PipeIn(q, _) | Op::Pipe(q, _, _) => Some(*q),
+            Op::SyncOwned(q, _) | Op::Desync(q, _) | Op::Sync(q, _) | Op::TrySync(q, _) | Op::FutDesync(q, _, _) | Op::FutSync(q, _, _) | Op::After(q, _, _) | Op::Suspend(q) | Op::SuspendLazy(q) | Op::SuspendHand(q) | Op::DropObj(q) | Op::ExpectPanic(q) | Op::PipeIn(q, _) | Op::Pipe(q, _, _) => Some(*q),
             _ => None
         }
     }
@@ -114,6 +118,7 @@ pub fn fmt_op(o: &Op) -> String {
     match o {
         Op::Desync(q, b) => format!("D{}{}", q, fmt_body(b)),
         Op::Sync(q, b) => format!("S{}{}", q, fmt_body(b)),
+        Op::SyncOwned(q, b) => format!("q{}{}", q, fmt_body(b)),
         Op::TrySync(q, b) => format!("T{}{}", q, fmt_body(b)),
         Op::FutDesync(q, b, m) => format!("F{}{}{}", q, fmt_body(b), fmt_mode(m)),
         Op::FutSync(q, b, m) => format!("Y{}{}{}", q, fmt_body(b), fmt_mode(m)),
@@ -225,6 +230,7 @@ fn parse_op(cs: &[char], i: &mut usize) -> Result<Op, String> {
     Ok(match c {
         'D' => { let q = parse_num(cs, i)?; Op::Desync(q, parse_body(cs, i)?) }
         'S' => { let q = parse_num(cs, i)?; Op::Sync(q, parse_body(cs, i)?) }
+        'q' => { let q = parse_num(cs, i)?; Op::SyncOwned(q, parse_body(cs, i)?) }
         'T' => { let q = parse_num(cs, i)?; Op::TrySync(q, parse_body(cs, i)?) }
         'F' => { let q = parse_num(cs, i)?; let b = parse_body(cs, i)?; Op::FutDesync(q, b, parse_mode(cs, i)?) }
         'Y' => { let q = parse_num(cs, i)?; let b = parse_body(cs, i)?; Op::FutSync(q, b, parse_mode(cs, i)?) }
